@@ -650,6 +650,78 @@ func joinBlock() (progs []string, inputs []any) {
 	return
 }
 
+
+// wide frames: k variables in one scope (chained bindings, k computed object values, k-ary destructuring,
+// k nested reduce/foreach, function bodies with k locals, recursion depth x width): the VM's variable-slot
+// buffer is grown at scope entry
+func wideBlock() (progs []string, inputs []any) {
+	seqs := func(k int, f func(i int) string, sep string) string {
+		var b strings.Builder
+		for i := 0; i < k; i++ {
+			if i > 0 {
+				b.WriteString(sep)
+			}
+			b.WriteString(f(i))
+		}
+		return b.String()
+	}
+	for _, k := range []int{1, 2, 31, 32, 33, 34, 63, 64, 65, 130} {
+		binds := seqs(k, func(i int) string { return fmt.Sprintf("(%d + (.|length)) as $v%d", i, i) }, " | ")
+		vars := seqs(k, func(i int) string { return fmt.Sprintf("$v%d", i) }, ", ")
+		progs = append(progs,
+			binds+" | ["+vars+"] | add",
+			binds+" | [$v0, $v"+fmt.Sprint(k-1)+"]",
+			"{"+seqs(k, func(i int) string { return fmt.Sprintf("a%d: (.a%d? + 1)", i, i) }, ", ")+"} | [length, .a0, .a"+fmt.Sprint(k-1)+"]",
+			"{"+seqs(k, func(i int) string { return fmt.Sprintf("(\"k%d\" + \"\"): (%d, empty)", i, i) }, ", ")+"} | length",
+			"[range("+fmt.Sprint(k)+")] as ["+vars+"] | [$v0, $v"+fmt.Sprint(k-1)+"]",
+			"[range("+fmt.Sprint(k)+")] | . as ["+vars+"] ?// $v0 | $v"+fmt.Sprint(k-1),
+			". as {"+seqs(k, func(i int) string { return fmt.Sprintf("a%d: $v%d", i, i) }, ", ")+"} | [$v0, $v"+fmt.Sprint(k-1)+"]",
+			seqs(k, func(i int) string { return fmt.Sprintf("reduce 1 as $x%d (0; . + ", i) }, "")+"1"+strings.Repeat(")", k),
+			seqs(k, func(i int) string { return fmt.Sprintf("[foreach 1 as $x%d (0; . + ", i) }, "")+"1"+strings.Repeat(")]", k)+" | flatten | add",
+			"def f: "+binds+" | $v0 + $v"+fmt.Sprint(k-1)+"; [f, f]",
+			"def f($d): "+binds+" | if $d > 0 then f($d - 1) + $v0 else $v"+fmt.Sprint(k-1)+" end; f(4)",
+			"def f($d): [.[]?] as $w | "+binds+" | if $d > 0 then [f($d - 1), $v"+fmt.Sprint(k-1)+"] else $v0 end; f(3) | flatten | add",
+			"[limit(3; .[]?)] | map("+binds+" | $v"+fmt.Sprint(k/2)+")",
+			"[.[]? as $e | "+binds+" | $e, $v0] | length",
+		)
+	}
+	inputs = []any{nil, []any{1, 2, 3}, map[string]any{"a0": 1, "a1": 2}, "ab"}
+	return
+}
+
+// path expressions and updates whose body BINDS with a pattern and then navigates with the bound
+// variables (compileBind's opexpbegin/opexpend bracket)
+func pathBindBlock() (progs []string, inputs []any) {
+	pats := []patv{
+		{"$x", []string{"$x"}}, {"[$a]", []string{"$a"}}, {"[$a, $b]", []string{"$a", "$b"}}, {"{$k}", []string{"$k"}},
+		{"{a: $a}", []string{"$a"}}, {"{k: $k, a: $a}", []string{"$k", "$a"}}, {"[[$a]]", []string{"$a"}},
+		{"[$a] ?// $a", []string{"$a"}}, {"{$k} ?// [$k]", []string{"$k"}},
+	}
+	sources := []string{".", "(. | .)", "first(.)", ".[0]?", ".a?", "(., .)"}
+	wrappers := []string{"path(%s)", "[paths(%s)]?", "(%s) = 5", "(%s) |= 7", "del(%s)", "(%s) += 1", "[path(%s)] | length", "try ((%s) = 5) catch \"e\"", "[getpath(path(%s))]?", "(%s) //= 3"}
+	for _, p := range pats {
+		v := p.vars[0]
+		bodies := []string{".[" + v + "]", ".[" + v + "]?", v, "getpath([" + v + "])?", ".[" + v + "] | .", "(.[" + v + "], .)"}
+		if len(p.vars) > 1 {
+			bodies = append(bodies, ".["+p.vars[0]+"][" + p.vars[1] + "]?", ".["+p.vars[1]+"]")
+		}
+		for _, src := range sources {
+			for _, b := range bodies {
+				e := src + " as " + p.text + " | " + b
+				for _, w := range wrappers {
+					progs = append(progs, strings.ReplaceAll(w, "%s", e))
+				}
+			}
+		}
+	}
+	inputs = []any{
+		[]any{1, 2}, []any{0, 1}, []any{"a"}, []any{[]any{0}}, []any{[]any{0}, 5},
+		map[string]any{"k": "a", "a": 1}, map[string]any{"a": "k", "k": 2}, map[string]any{"k": "k"}, map[string]any{"a": 0, "k": "a"},
+		map[string]any{"a": []any{1}, "k": "a"}, nil, 1,
+	}
+	return
+}
+
 // ---------------------------------------------------------------------------------------------
 // the stream
 
@@ -736,6 +808,24 @@ func streamC01(c *Ctx) {
 			}
 		} else {
 			runOn(src, "join", ji, someInputs)
+		}
+	}
+	wp, wi := wideBlock()
+	for i, src := range wp {
+		if quick {
+			runOn(src, "wide", []any{wi[i%len(wi)], wi[(i+1)%len(wi)]}, someInputs)
+		} else {
+			runOn(src, "wide", wi, someInputs)
+		}
+	}
+	pp, pi := pathBindBlock()
+	for i, src := range pp {
+		if quick {
+			if i%4 == int(c.Seed%4) {
+				runOn(src, "pathbind", []any{pi[i%len(pi)], pi[(i*5+1)%len(pi)]}, someInputs)
+			}
+		} else {
+			runOn(src, "pathbind", pi, someInputs)
 		}
 	}
 	// (c) + (d)
